@@ -55,7 +55,7 @@ pub fn all() -> Vec<Check> {
         Check {
             prop: "C08",
             level: "exploration",
-            parts: vec![part(B, 0, 1_000_000, 20_000_000, "producer/consumer operation histories over the real BodyWriter + Body, identity coding"),
+            parts: vec![part(B, 0, 1_000_000, 10_000_000, "producer/consumer operation histories over the real BodyWriter + Body, identity coding"),
                         part(C, 0, 60_000, 5_000_000, "the same oracle (frames = accepted bytes, clean end) with the producer on its own thread, interleaved inside the operations"),
                         part(F, 1, 150_000, 10_000_000, "streaming_body behind real hyper: producer operations interleaved with the connection task; chunked / close-delimited framing de-framed by an independent parser")],
             rule: "one run = seeded config (chunk size, level, Accept-Encoding, payload kind) + up to 12 interleaved producer/consumer operations + drop + drain; non-trivial = bytes were written and compared with what the client decoded; distinct = (config, operation kinds in order); grid_cells = short-sequence grid: chunk size in {1,2,3,4,7} x every sequence of <= 3 operation kinds out of 10 (5550 cells), sampled not enumerated",
@@ -64,7 +64,7 @@ pub fn all() -> Vec<Check> {
         Check {
             prop: "C09",
             level: "exploration",
-            parts: vec![part(B, 0, 200_000, 10_000_000, "as C08 with gzip negotiated, levels 1..9; independent inflater after every flush and at the end"),
+            parts: vec![part(B, 0, 200_000, 3_000_000, "as C08 with gzip negotiated, levels 1..9; independent inflater after every flush and at the end"),
                         part(C, 0, 40_000, 3_000_000, "one valid gzip member = accepted bytes with the producer on its own thread"),
                         part(F, 1, 60_000, 5_000_000, "gzip streaming body behind real hyper: the de-framed wire bytes are one gzip member, and decodable after every flush once the connection is idle")],
             rule: "as C08; the client decodes with a hand-written RFC 1951/1952 decoder; non-trivial = a gzip body was produced and decoded",
@@ -81,7 +81,7 @@ pub fn all() -> Vec<Check> {
         Check {
             prop: "C11",
             level: "fault_enumeration",
-            parts: vec![part(B, 0, 300_000, 20_000_000, "abort / body-drop injected at every position of chunk-sim histories, plus queue-release scenarios"),
+            parts: vec![part(B, 0, 300_000, 8_000_000, "abort / body-drop injected at every position of chunk-sim histories, plus queue-release scenarios"),
                         part(C, 0, 100_000, 8_000_000, "abort and body drop racing with the other side under the baton scheduler"),
                         part(F, 1, 150_000, 10_000_000, "abort and client disconnect (socket write errors at a drawn byte) behind real hyper: aborted message never complete on the wire; writer told after hyper dropped the body")],
             rule: "fault = abort or body drop at a drawn position of a drawn operation history (raw and gzip); non-trivial = the fault was injected and judged; the release scenarios measure this thread's live heap bytes",
@@ -90,7 +90,7 @@ pub fn all() -> Vec<Check> {
         Check {
             prop: "C17",
             level: "exploration",
-            parts: vec![part(B, 0, 300_000, 20_000_000, "streaming_body over Accept-Encoding x level x method x request representation; client decodes by the response header"),
+            parts: vec![part(B, 0, 300_000, 5_000_000, "streaming_body over Accept-Encoding x level x method x request representation; client decodes by the response header"),
                         part(F, 1, 100_000, 5_000_000, "coding headers as they appear on the wire and the body decoded according to them, behind real hyper")],
             rule: "as C08 with the full configuration space; non-trivial = headers judged and (for non-HEAD) the body decoded according to Content-Encoding and compared",
             assumptions: vec!["the real should_gzip is the oracle for the negotiation, as the property states (its own correctness is C16, not claimed)"],
@@ -99,7 +99,7 @@ pub fn all() -> Vec<Check> {
             prop: "C12",
             level: "exploration",
             parts: vec![part(A, 0, 2_000_000, 100_000_000, "size_hint/is_end_stream sampled before every poll of serve() bodies and of Body::from/empty"),
-                        part(B, 0, 300_000, 20_000_000, "the same monitor on streaming bodies across write/flush/abort/drop histories"),
+                        part(B, 0, 300_000, 8_000_000, "the same monitor on streaming bodies across write/flush/abort/drop histories"),
                         part(C, 0, 60_000, 4_000_000, "the same monitor sampled concurrently with a running producer thread"),
                         part(D, 0, 20_000, 1_000_000, "the same monitor on serve(ChunkedReadFile) bodies incl. truncation")],
             rule: "every poll of every run is preceded by a sample; non-trivial = more than one sample; distinct as C01",
@@ -142,7 +142,7 @@ pub fn all() -> Vec<Check> {
             prop: "C20",
             level: "fault_enumeration",
             parts: vec![part(A, 0, 2_000_000, 100_000_000, "over-polling 1..4 times after every kind of terminal event of serve() bodies"),
-                        part(B, 0, 300_000, 20_000_000, "over-polling streaming bodies after clean end and after abort"),
+                        part(B, 0, 300_000, 8_000_000, "over-polling streaming bodies after clean end and after abort"),
                         part(D, 0, 20_000, 1_000_000, "over-polling serve(ChunkedReadFile) bodies after clean end and after a truncation error"),
                         part(C, 0, 100_000, 8_000_000, "over-polling a streaming body on a consumer thread while the producer thread is still inside abort/drop")],
             rule: "one stream fault (or none) per run, then k extra polls after the first terminal event; non-trivial = at least one extra poll happened; grid = body shape x terminal kind x extra polls",
